@@ -129,6 +129,8 @@ def check_program(prog: Dict[str, Any], acc: Acc, flags=None):
                 continue
             op = bp.make_op({"k": "Wait", "q": [0], "dur": 7.25}, ctx, [built.top])
             h.add(op)
+            # ... and one on a qubit the block did not use yet: a NEW head operation of an already listed block
+            h.add(bp.make_op({"k": "Wait", "q": [17], "dur": 3}, ctx, [built.top]))
             acc.count("growth_rereads")
             rep2 = snap.raw_value(lambda: float(top.duration))
             shd2 = snap.shadow_value(lambda: float(top.duration))
@@ -141,7 +143,10 @@ def check_program(prog: Dict[str, Any], acc: Acc, flags=None):
             raw3 = snap.raw_times(ops3)
             span3 = (max(e for _, e in raw3) - min(s0 for s0, _ in raw3)) if raw3 else 0.0
             rep3 = snap.raw_value(lambda: float(top.duration))
-            if abs(rep3 - span3) > TOL:
+            if abs(rep3 - rep2) > TOL:
+                acc.finding("duration/changes-with-listing", "the duration reported after a sub-circuit grew changes when the operations are listed (nothing was added in between)", case,
+                            {"before_listing": rep2, "after_listing": rep3})
+            elif abs(rep3 - span3) > TOL:
                 acc.finding("duration/span-after-growth", "duration of the circuit after a sub-circuit grew is not the span of the reported operation times", case,
                             {"duration": rep3, "span": span3})
             break
